@@ -48,7 +48,34 @@ def _gen_op(ch, depth):
     return op
 
 
+# the timers and their control events are defined in machines/c13/modes/m1/config/m1.yaml; ARGS mirrors the values there
+TIMERS = {"t_up": {"start": 0, "end": 5, "dir": 1, "interval": 1.0,
+                   "args": {"pause": 2, "add": 2, "subtract": 1, "jump": 3, "set_interval": 0.5}},
+          "t_down": {"start": 4, "end": 0, "dir": -1, "interval": 0.25,
+                     "args": {"pause": 0, "add": 2, "subtract": 1, "jump": 2, "set_interval": 0.1}}}
+
+
 def plan(ch, tier):
+    if ch.flag("family_timer", 0.3):
+        return _plan_timer(ch)
+    return _plan_delays(ch)
+
+
+def _plan_timer(ch):
+    knobs = draw_knobs(ch)
+    ops = []
+    for _ in range(3 + ch.choice("nops", 14)):
+        k = ch.weighted("top", [("start", 5), ("stop", 2), ("pause", 3), ("add", 2), ("subtract", 2), ("jump", 2),
+                                ("reset", 1), ("restart", 2), ("set_interval", 1)])
+        op = {"op": k, "timer": ch.pick("timer", ["t_down", "t_up"]),
+              "when": ch.weighted("twhen", [("rel", 3), ("tick", 3)]),
+              "dt": ch.pick("tdt", [0.0, 0.1, 0.25, 0.3, 0.5, 0.99, 1.0, 1.01, 2.0, 3.3]),
+              "delta": ch.pick("tdelta", [0.0, 0.0, -0.001, 0.001])}
+        ops.append(op)
+    return {"family": "timer", "knobs": knobs, "ops": ops}
+
+
+def _plan_delays(ch):
     knobs = draw_knobs(ch)
     n = 4 + ch.choice("nops", 24)
     ops = []
@@ -95,6 +122,8 @@ class Model:
 
 
 def execute(ctx, plan):
+    if plan.get("family") == "timer":
+        return _execute_timer(ctx, plan)
     sim = ctx.new_sim("c13")
     sim.boot()
     m = sim.machine
@@ -350,3 +379,239 @@ def execute(ctx, plan):
     for nm in set(m.delay.delays.keys()) - base_machine_delays:
         if nm not in model.pending["machine"]:
             ctx.violation("check_untruthful", "leftover", "delay %s still registered but not in model" % nm)
+
+
+# ------------------------------------------------------------------------------------------
+# timer device family
+
+
+def _execute_timer(ctx, plan):
+    from sim.tap import tap_events
+    sim = ctx.new_sim("c13")
+    sim.boot()
+    loop = sim.loop
+    mode = sim.machine.modes["m1"]
+    mode.start()
+    sim.run(0.01)
+    timers = {n: sim.machine.timers[n] for n in TIMERS}
+    # model per timer
+    M = {n: {"value": c["start"], "running": False, "t0": None, "k": 0, "interval": c["interval"], "auto_start": None,
+             "cfg": c} for n, c in TIMERS.items()}
+    in_op = [None]          # name of the timer an op is being applied to right now
+    expect = []             # events the model expects within the current op (unordered multiset of (name, ticks))
+
+    def done(m):
+        c = m["cfg"]
+        return m["value"] >= c["end"] if c["dir"] > 0 else m["value"] <= c["end"]
+
+    def model_complete(n, m, now):
+        m["running"] = False
+        m["auto_start"] = None
+        ctx.probe("timer_complete")
+
+    def on_event(name, ev_type, cb, kwargs):
+        if not name.startswith("timer_t_"):
+            return
+        for n in TIMERS:
+            if name.startswith("timer_" + n + "_"):
+                what = name[len("timer_" + n + "_"):]
+                break
+        else:
+            return
+        now = loop.time()
+        m = M[n]
+        ctx.log("tev", n, what, kwargs.get("ticks"), t=now)
+        if in_op[0] is not None:
+            # consequences of an op the model applied: checked by value after the op
+            return
+        if what == "tick" and m.get("initial_tick"):
+            # start() posts one tick for the starting value right away (documented in timer.py)
+            m["initial_tick"] = False
+            if kwargs.get("ticks") != m["value"]:
+                ctx.violation("tick_value", "timer", "%s initial tick carries ticks=%r, model %r" % (n, kwargs.get("ticks"), m["value"]))
+            return
+        if what == "tick":
+            ctx.probe("timer_tick")
+            if not m["running"]:
+                ctx.violation("tick_while_not_running", "timer", "%s ticked at %.6f while paused/stopped (value %r)"
+                              % (n, now, kwargs.get("ticks")))
+                return
+            m["k"] += 1
+            nominal = m["t0"] + m["k"] * m["interval"]
+            if now + 1e-7 < nominal or (now - nominal > 1e-7 and not sim.late_ok(nominal, now)):
+                ctx.violation("tick_drift", "timer", "%s: tick %d at %.9f, nominal %.9f (t0 %.9f interval %r)"
+                              % (n, m["k"], now, nominal, m["t0"], m["interval"]))
+            m["value"] += m["cfg"]["dir"]
+            if done(m):
+                ctx.violation("tick_beyond_end", "timer", "%s posted a tick with value %r although the end value %r is "
+                              "reached" % (n, kwargs.get("ticks"), m["cfg"]["end"]))
+            if kwargs.get("ticks") != m["value"]:
+                ctx.violation("tick_value", "timer", "%s tick carries ticks=%r, model %r" % (n, kwargs.get("ticks"), m["value"]))
+        elif what == "complete":
+            # a periodic tick that reaches the end value completes instead of ticking
+            if not m["running"] and m["auto_start"] is not None and sim.late_ok(m["auto_start"], now) and done(m):
+                # automatic restart after a timed pause of a timer that already sits on its end value:
+                # starting it completes it at once (same as an explicit start)
+                m["auto_start"] = None
+                return
+            if not m["running"]:
+                ctx.violation("complete_while_not_running", "timer", "%s completed at %.6f while not running" % (n, now))
+                return
+            m["k"] += 1
+            nominal = m["t0"] + m["k"] * m["interval"]
+            if now + 1e-7 < nominal or (now - nominal > 1e-7 and not sim.late_ok(nominal, now)):
+                ctx.violation("tick_drift", "timer", "%s: completing tick %d at %.9f, nominal %.9f" % (n, m["k"], now, nominal))
+            m["value"] += m["cfg"]["dir"]
+            if not done(m):
+                ctx.violation("complete_early", "timer", "%s completed with value %r, end value %r" % (n, m["value"], m["cfg"]["end"]))
+            model_complete(n, m, now)
+        elif what == "started":
+            # only legal outside an op as the automatic restart after a timed pause
+            if m["auto_start"] is None or not sim.late_ok(m["auto_start"], now):
+                ctx.violation("unexpected_start", "timer", "%s started at %.6f without a request (auto restart due %r)"
+                              % (n, now, m["auto_start"]))
+            m["auto_start"] = None
+            if done(m):
+                pass
+            else:
+                m["running"] = True
+                m["t0"] = now
+                m["k"] = 0
+                m["initial_tick"] = True
+    tap_events(sim, on_event)
+
+    pending_ops = {}
+
+    def pre(_n, _k, **kwargs):
+        in_op[0] = _n
+
+    def post(_n, _k, **kwargs):
+        apply_model(_n, _k)
+
+    for _n in TIMERS:
+        for _k in ("start", "stop", "pause", "add", "subtract", "jump", "reset", "restart", "set_interval"):
+            sim.machine.events.add_handler("%s_%s" % (_n, _k), pre, priority=10 ** 6, _n=_n, _k=_k)
+            sim.machine.events.add_handler("%s_%s" % (_n, _k), post, priority=-10 ** 6, _n=_n, _k=_k)
+
+    def apply(op):
+        # the op is a control event; the model is advanced when MPF dispatches it (see pre/post)
+        ctx.log("post", op["timer"], op["op"], t=loop.time())
+        sim.machine.events.post("%s_%s" % (op["timer"], op["op"]))
+
+    class _Noop:
+        def __getattr__(self, name):
+            return lambda *a, **k: None
+
+    def apply_model(n, k):
+        op = {"arg": TIMERS[n]["args"].get(k)}
+        real = timers[n]
+        t = _Noop()
+        m = M[n]
+        now = loop.time()
+        ctx.log("top", n, k, op.get("arg"), t=now)
+        try:
+            if k == "start":
+                t.start()
+                if not m["running"]:
+                    m["auto_start"] = None
+                    if done(m):
+                        model_complete(n, m, now)
+                    else:
+                        m["running"], m["t0"], m["k"] = True, now, 0
+            elif k == "stop":
+                t.stop()
+                m["running"] = False
+                m["auto_start"] = None
+            elif k == "pause":
+                t.pause(op["arg"])
+                m["running"] = False
+                ctx.probe("timer_paused")
+                # pausing again replaces a pending automatic restart; pause(0) leaves an earlier one in place
+                if op["arg"]:
+                    m["auto_start"] = now + op["arg"]
+            elif k in ("add", "subtract"):
+                if k == "add":
+                    t.add(op["arg"])
+                    m["value"] += op["arg"]
+                else:
+                    t.subtract(op["arg"])
+                    m["value"] -= op["arg"]
+                if done(m):
+                    model_complete(n, m, now)
+            elif k in ("jump", "reset", "restart"):
+                target = op["arg"] if k == "jump" else m["cfg"]["start"]
+                if k == "jump":
+                    t.jump(target)
+                elif k == "reset":
+                    t.reset()
+                else:
+                    t.restart()
+                m["value"] = target
+                m["t0"], m["k"] = now, 0          # the tick phase restarts at a jump
+                if done(m):
+                    model_complete(n, m, now)
+                elif k == "restart" and not m["running"]:
+                    m["running"], m["auto_start"] = True, None
+            elif k == "set_interval":
+                t.set_tick_interval(op["arg"])
+                m["interval"] = op["arg"]
+                m["t0"], m["k"] = now, 0
+        finally:
+            in_op[0] = None
+        t = real
+        # value after the op
+        if t.ticks != m["value"] and not (done(m) and not m["running"]):
+            ctx.violation("value_after_op", "timer", "%s after %s(%r): ticks=%r, model %r" % (n, k, op.get("arg"), t.ticks, m["value"]))
+        if bool(t.running) != m["running"]:
+            ctx.violation("running_after_op", "timer", "%s after %s(%r): running=%r, model %r (value %r)"
+                          % (n, k, op.get("arg"), t.running, m["running"], m["value"]))
+        if done(m) and not m["running"]:
+            m["value"] = t.ticks        # a completed timer keeps whatever value it ended on
+        ctx.state("timer", k, m["running"], min(max(m["value"], -1), 8))
+
+    ops = plan["ops"]
+    idx = [0]
+    fin = [False]
+
+    def schedule_next():
+        if idx[0] >= len(ops):
+            fin[0] = True
+            return
+        op = ops[idx[0]]
+        now = loop.time()
+        t = now + op["dt"]
+        if op["when"] == "tick":
+            m = M[op["timer"]]
+            if m["running"]:
+                nxt = m["t0"] + (m["k"] + 1) * m["interval"]
+                if nxt >= now:
+                    t = max(now, nxt + op["delta"])
+                    if op["delta"] == 0.0:
+                        ctx.probe("op_on_deadline")
+        sim.at(t, run_op)
+
+    def run_op():
+        op = ops[idx[0]]
+        idx[0] += 1
+        apply(op)
+        schedule_next()
+
+    schedule_next()
+    guard = 0
+    while not fin[0]:
+        sim.run(0.5)
+        guard += 1
+        if guard > 400:
+            raise AssertionError("timer op chain did not finish")
+    sim.run_quiet(7.0)
+    now = loop.time()
+    for n, m in M.items():
+        t = timers[n]
+        if m["running"]:
+            # a running timer must have ticked once per interval up to now (it would have completed otherwise)
+            due = int((now - m["t0"] - 1e-6) / m["interval"])
+            if m["k"] < due:
+                ctx.violation("tick_missing", "timer", "%s running since %.6f (interval %r) ticked %d times by %.6f, "
+                              "expected %d" % (n, m["t0"], m["interval"], m["k"], now, due))
+        if bool(t.running) != m["running"]:
+            ctx.violation("running_at_end", "timer", "%s: running=%r, model %r" % (n, t.running, m["running"]))
